@@ -121,8 +121,11 @@ func installGates() *gates {
 	return gt
 }
 
+// release lets goroutine g go if it is parked, and withdraws a park request it has not reached yet
+// (a goroutine that was excluded while another one sat in its window must not park later).
 func (gt *gates) release(g int) {
 	gt.mu.Lock()
+	delete(gt.park, g)
 	ch := gt.parked[g]
 	delete(gt.parked, g)
 	gt.mu.Unlock()
@@ -212,9 +215,22 @@ func overlap(c *lib.Ctx, kindA, kindB string) (sched, error) {
 		s.Steps = append(s.Steps, "B did not reach its access while A is parked")
 		s.Result = "excluded"
 	}
+	if !reached {
+		gt.release(gB) // withdraw B's park request: it must not park once A lets go of the lock
+	}
+	// Let A finish first so that the two real map accesses never overlap physically (the runtime
+	// would abort the process); if A then needs a lock B holds while parked, let B go after a while.
 	gt.release(gA)
-	<-doneA
+	select {
+	case <-doneA:
+	case <-time.After(3 * time.Second):
+	}
 	gt.release(gB)
+	select {
+	case <-doneA:
+	case <-time.After(20 * time.Second):
+		return s, lib.Infra("goroutine A did not finish")
+	}
 	select {
 	case <-doneB:
 	case <-time.After(20 * time.Second):
